@@ -184,6 +184,8 @@ def _gen_churn(rng, tier):
 
 def _gen_big(rng, tier, i):
     n = rng.randint(23000, 26000) if tier == "quick" else rng.randint(23000, 40000)
+    if i >= 2 and i % 3 == 2:
+        n = int(10 ** rng.uniform(3.0, 4.3))       # 1 000 .. 20 000: sizes between the large cases and the split point
 
     def pat():
         k = rng.choice(["desc", "desc", "asc", "mod"]) if i else "desc"
@@ -468,8 +470,16 @@ def _pat(p):
     return "(RMod %s %s)" % (cN(p[1]), cN(p[2]))
 
 
+def _chunked(items, n=4000):
+    """a long list literal as (l1 ++ l2 ++ ...): Coq's parser overflows its stack on one literal of > ~33 000 items"""
+    items = list(items)
+    if len(items) <= n:
+        return clist(items)
+    return "(" + " ++ ".join(clist(items[i:i + n]) for i in range(0, len(items), n)) + ")"
+
+
 def _bigobs(o):
-    return "(mkBigObs %s %s %s)" % (cN(o["len"]), clist(cN(t) for t in o["pops"]), "true" if o["end"] else "false")
+    return "(mkBigObs %s %s %s)" % (cN(o["len"]), _chunked(cN(t) for t in o["pops"]), "true" if o["end"] else "false")
 
 
 def to_coq(case, obs):
